@@ -46,6 +46,17 @@ Order(e) == DeclOrder(e.m, e.s)
 \* C16, stated from the property (not FFSM2!LogDefined): a delivery to a class that itself defines the callback must be recorded
 \* (every delivery under verbose logging); records are accepted in addition for classes that inherit the callback from an
 \* injection and - a measured habit of the library, Appendix B - for the react family and query; nothing else may be recorded
+\* callbacks an operation can deliver at all (a method record for anything else corresponds to no delivery)
+MethodsOf(op) ==
+    LET life == {M_ENTER, M_REENTER, M_EXIT} guards == {M_ENTRY_GUARD, M_EXIT_GUARD} planc == {M_PLAN_SUCCEEDED, M_PLAN_FAILED} IN
+    CASE op = "update" -> {M_PRE_UPDATE, M_UPDATE, M_POST_UPDATE} \cup life \cup guards \cup planc
+      [] op = "react"  -> {M_PRE_REACT, M_REACT, M_POST_REACT} \cup life \cup guards \cup planc
+      [] op = "query"  -> {M_QUERY}
+      [] op \in {"ito", "iwith"} -> life \cup guards
+      [] op \in {"ctor", "enter"} -> {M_ENTRY_GUARD, M_ENTER}
+      [] op \in {"exit", "dtor"} -> {M_EXIT}
+      [] op \in {"load", "rt", "re"} -> life
+      [] OTHER -> {}
 MustLog(s, m) == Verbose \/ Defines(s, m)
 MayLog(s, m)  == MustLog(s, m) \/ Injections(s) >= 1 \/ m \in {M_PRE_REACT, M_REACT, M_POST_REACT, M_QUERY}
 \* C15 fixes the order of the sub-deliveries (injections, the class itself) for every callback except exitGuard and query: for
@@ -380,6 +391,8 @@ CheckCb(tk, e, tk2) ==
     \* ---- C16: logging relative to the deliveries observed
     \cup V0(~tk.logger => e.pre = <<>> /\ \A q \in 1 .. Len(e.acts) : e.acts[q].lg = <<>>,
            "C16", "log records although no logger is attached")
+    \cup V0(\A q \in 1 .. Len(e.pre) : e.pre[q][1] = "m" => e.pre[q][3] \in MethodsOf(tk.op),
+            "C16", "a method record names a callback that the running operation never delivers")
     \cup V(tk.logger /\ cont => e.pre = <<>>, "C16", "log record between the injections and the state's own callback of one delivery")
     \cup V(tk.logger /\ start /\ MustLog(e.s, e.m) => e.pre # <<>> /\ Last(e.pre) = <<"m", e.s, e.m>>,
            "C16", "no method record immediately before the delivery")
@@ -519,6 +532,8 @@ CheckRet(tk, e, tk2) ==
     \cup V(tk.dpos > 0 /\ IsPlanCb(tk.dm) => e.plan = <<>>, "C09", "the plan is not empty after planSucceeded / planFailed returned")
     \* ---- C16
     \cup V(~tk.logger => e.pre = <<>>, "C16", "log records although no logger is attached")
+    \cup V0(\A q \in 1 .. Len(e.pre) : e.pre[q][1] = "m" => e.pre[q][3] \in MethodsOf(tk.op),
+            "C16", "a method record names a callback that the running operation never delivers")
     \cup V(tk.logger /\ tk.op \in {"to", "with"} => e.pre = <<<<"t", NONE, tk.oa>>>>, "C16", "changeTo/changeWith did not produce exactly one transition record")
     \cup V(tk.logger /\ tk.op = "succeed" => e.pre = <<<<"s", tk.oa, 0>>>>, "C16", "succeed() did not produce exactly one task-status record")
     \cup V(tk.logger /\ tk.op = "fail" => e.pre = <<<<"s", tk.oa, 1>>>>, "C16", "fail() did not produce exactly one task-status record")
